@@ -34,6 +34,23 @@ def _walk(src, records, ident, start, sig):
     return cur
 
 
+def _proxy_reports_failure(core, status):
+    """runs the real SupervisorProxyThread.handle_exception for the proxy of `status` (the thread object itself is
+    replaced by its attributes: no socket, no OS thread); True when an INSTANCE_FAILURE notification is pushed"""
+    import types
+    from supvisors.internal_com.supervisorproxy import SupervisorProxyThread
+    from supvisors.ttypes import NotificationHeaders
+    pushed = []
+    server = types.SimpleNamespace(push_notification=pushed.append)
+    supvisors = types.SimpleNamespace(rpc_handler=types.SimpleNamespace(proxy_server=server), mapper=core.mapper,
+                                      logger=core.logger, options=core.options, context=core.context)
+    me = types.SimpleNamespace(status=status, supvisors=supvisors, logger=core.logger,
+                               local_identifier=core.local_identifier,
+                               _get_origin=lambda ident: core.mapper.instances[ident].source)
+    SupervisorProxyThread.handle_exception(me)
+    return any(message[0] == NotificationHeaders.INSTANCE_FAILURE.value for _, message in pushed)
+
+
 @rigged
 def trace(src, k=5, kinds=('local_tick', 'peer_tick', 'peer_tick_restarted', 'rpc_failure', 'handshake_ok'),
           t_range=(2, 720)):
@@ -152,7 +169,10 @@ def trace(src, k=5, kinds=('local_tick', 'peer_tick', 'peer_tick_restarted', 'rp
                     # first tick of a new life: its counter is what it is (not related to the previous life)
                     pass
         elif kind == 'rpc_failure':
-            core.fsm.on_instance_failure(core.context.instances[peer])
+            # the real proxy thread decides whether the failure is worth a notification (handle_exception); what it
+            # pushes comes back to the main thread as INSTANCE_FAILURE
+            if _proxy_reports_failure(core, core.context.instances[peer]):
+                core.fsm.on_instance_failure(core.context.instances[peer])
             healthy = False
             after = core.context.instances[peer].state.name
             if before in G.ACTIVE:
